@@ -90,7 +90,7 @@ P("C11", "proof", native=True, kani={"timeout": "600s", "compile_clause": True},
 P("C12", "model_checking", native=True, kani={"timeout": "600s", "compile_clause": True},
   bounded="native family rand_diff: 48 (thorough 240) RANDOM programs under join! / try_join! / join_spawn! / try_join_spawn! (1-3 branches x 1-3 steps, operators from the Option pool, plain or block operands, captures reading or reassigning names, let / let mut, failing initial values, optional handler) x 48 (400) sampled inputs against the staged reference, value and evaluation trace; n<=3, d<=3, subsets of named branches (quick: 6 masks per profile), every later step has a capture reading a name; 4 executable macro kinds",
   not_decided="spawn kinds")
-P("C13", "model_checking", native=True, kani={"timeout": "600s"}, rac=["reject"],
+P("C13", "model_checking", native=True, kani={"timeout": "600s"}, rac=["reject", "structure"],
   bounded="every legal (kind x handler) for the 4 executable kinds, n<=3, handler at end / between branches, failure flags symbolic; handler call count, argument order, wrapping, awaited value",
   not_decided="spawn kinds")
 P("C16", "model_checking",
